@@ -588,11 +588,12 @@ PROPS["C11"] = dict(
 
 PROPS["C02"] = dict(
     title="Acknowledged mode recovers from any bounded loss, duplication and reordering",
-    module="Cfdp.Props.C02u",
+    module="Cfdp.Props.C02v",
     namespace="Cfdp.Seg",
     theorems=["C02_round_completes", "C02_gaps_answered", "Cfdp.Recv.C02_finishes_when_complete", "Cfdp.Recv.C02_never_waits_complete", "Cfdp.Recv.C02_complete_is_success", "Cfdp.Recv.C02_size_check_passes", "Cfdp.Loop.C02_no_integrity_fault", "Cfdp.Net.C02_two_party_no_integrity_fault", "Cfdp.Loop.C02_recv_completes", "Cfdp.Loop.C02_send_completes", "Cfdp.Net.C02_two_party_completes",
               "Cfdp.Loop.C02_sender_answers_nak", "Cfdp.Loop.C02_receiver_recovers", "Cfdp.Loop.C02_recovery_round",
-              "Cfdp.Loop.C02_full_round", "Cfdp.Loop.C02_full_round_after_wake", "Cfdp.Loop.C02_timer_round"],
+              "Cfdp.Loop.C02_full_round", "Cfdp.Loop.C02_full_round_after_wake", "Cfdp.Loop.C02_timer_round",
+              "Cfdp.Loop.C02_lost_eof_round", "Cfdp.Loop.C02_lost_finished_round", "Cfdp.Loop.C02_lost_metadata_round"],
     engines=["daemon", "recv", "send", "net"],
     design="§6 C02",
     technique="Lean 4 proofs of the recovery steps over the segment / receiver / sender models; the composition over a lossy link is checked on two real daemons under a virtual clock with bounded fault plans",
@@ -627,6 +628,10 @@ PROPS["C02"] = dict(
                 "The timer's part of it (Props/C02u.lean): for a receiver in mid-recovery with nothing to transmit whose NAK timer runs out below its limit (the inactivity limit "
                 "not reached either), the loop iteration of that expiry leaves the data untouched, rebuilds the queue and leaves the counter room (wake_rebuilds), so that expiry "
                 "followed by a round in which nothing is lost completes the delivery (C02_timer_round). "
+                "The other single losses (Props/C02v.lean): a lost EOF - the sender's positive-ACK timer running out below its limit repeats the very EOF (eof_timer_resends), which the "
+                "sender's invariants make truthful, and it completes the delivery at a receiver holding everything else (C02_lost_eof_round); a lost Finished PDU or a lost ACK of it - "
+                "the receiver's positive-ACK timer repeats the Finished PDU (finished_timer_resends), the sender records the receiver's outcome, acknowledges and ends, the ACK ends the "
+                "receiver (C02_lost_finished_round); a lost Metadata PDU - the 0-0 marker of a NAK makes the sender repeat it and it completes the delivery (C02_lost_metadata_round). "
                 "PARTIAL: that such a round comes about - the NAK timer fires, the NAK and its answers get through - whenever fewer than `limit` consecutive transmissions "
                 "of any PDU are lost is a statement about the timers of two transaction models, the link and the scheduler; C03 / C17 bound the timers, C08 gives the NAK's "
                 "content, but the composition over a lossy fair schedule is not one theorem here. It is checked on the real code: the daemon engine runs acknowledged transfers between two real daemons with every kind of fault "
@@ -638,5 +643,5 @@ PROPS["C02"] = dict(
           "per-side steps. Non-trivial = a routing line with at least one delivered PDU / a PDU emitted."
           " net engine (300 quick / 3000 thorough two-party histories): one real SendTransaction and one real RecvTransaction joined by a simulated link that delivers only PDUs the other side emitted (in order, lost, duplicated, reordered, as stragglers), random schedules of transmissions, deliveries, timer expiries and user requests at both sides, then a loss-free fair phase on the shared virtual clock until both have ended; every call is answered in lockstep by the Lean sender and receiver models (ops net s / net r), the per-side oracles of the send / recv engines keep running, and two-party oracles are added: C02 recovers / same_outcome (acknowledged mode, losses confined to a zero-time phase, default handlers: both sides report success), C03 net_bounded / net_never_stuck, C04 sender_success_only_after_receiver, C01 two_party_file."),
     assumptions=["bounded faults: fewer than `limit` faults per transfer, delays below the timers (as the property states)"],
-    unproved=["that under bounded loss a NAK-timer expiry below the limit is followed by a round in which nothing is lost - and the analogous rounds for a lost EOF, Finished PDU or ACK - within the limits: checked dynamically by the daemon and net engines; proved are 'delivery implies completion' (receiver and two-party model) and 'a recovery round in which nothing is lost completes the delivery', through both models and the link (C02_full_round)"],
+    unproved=["that under bounded loss every timer expiry below its limit is followed, within the limits, by a round in which nothing is lost (each kind of round - lost data, EOF, Finished / ACK, Metadata - is a theorem; their concatenation over a lossy fair schedule is not): checked dynamically by the daemon and net engines; proved are 'delivery implies completion' (receiver and two-party model) and 'a recovery round in which nothing is lost completes the delivery', through both models and the link (C02_full_round)"],
 )
